@@ -395,6 +395,6 @@ func genFacts(p *pkgFiles, repo string, files map[string]string, templates bool)
 	if templates {
 		one("FactsTemplates", "generated files equal the generator's output", "facts:templateMatches", func(o *strings.Builder) { genTemplateEquality(repo, o) })
 	}
-	one("FactsMutex", "mutex-protected regions", "facts:mutexRegions", func(o *strings.Builder) { genMutexRegions(p, o) })
+	one("FactsMutex", "mutex-protected regions", "facts:mutexRegions", func(o *strings.Builder) { genMutexRegions(p, o); genQueryLockCalls(p, o) })
 	one("FactsEvents", "order of events and mutations", "facts:eventOrder", func(o *strings.Builder) { genEventOrder(p, o) })
 }
